@@ -4,6 +4,7 @@ Property theorems only; helper lemmas live in Lemmas/QrPlain.lean, Lemmas/SmtpSp
 -/
 import QsmtpModel.Lemmas.QrPlain
 import QsmtpModel.Lemmas.SmtpSpec
+import QsmtpModel.Lemmas.QrQpRun
 
 namespace QsmtpModel.Props.C07
 open QsmtpModel QsmtpModel.Mime QsmtpModel.QrData QsmtpModel.Spec
@@ -14,12 +15,11 @@ def PlainChosen (cfg : Cfg) (m : List Byte) : Prop :=
 
 /-! ### the property at full strength (stated; proved in part, see below) -/
 
-/-- **QP body law** (stage A): what recode_qp() sends for a body, un-dotted and quoted-printable
-decoded, is the normalised body; every encoded line obeys the 76 character and no-trailing-blank
-rules. -/
-def qp_body_roundtrip_full : Prop :=
-  ∀ (b : List Byte) (st : St), recodeQp b {} = .ok st →
-    qpDecode (unDot st.out) = some (normalizeEol b) ∧ ∀ l ∈ splitCrlf [] (unDot st.out), QpLineOk l
+/-- the two quoted-printable line rules a decoder cannot undo (at most 76 characters per encoded
+line, no blank at its end) for what recode_qp() sends; checked on the implementation's output on
+every run, not yet proved -/
+def qp_line_rules_full : Prop :=
+  ∀ (b : List Byte) (st : St), recodeQp b {} = .ok st → ∀ l ∈ splitCrlf [] (unDot st.out), QpLineOk l
 
 /-- **roundtrip_single** (stage B): for a non-multipart message whatever send_data() sends decodes
 (Spec.checkRoundtrip: un-dot, remove the inserted Content-Transfer-Encoding / X-MIME-Autoconverted
@@ -74,9 +74,18 @@ theorem plain_identity_data (cfg : Cfg) (m : List Byte) (h : PlainChosen cfg m) 
     · simp [he, termAfterLf_eq]
     · simp [he, termNoLf_eq]
 
+/-- **QP body law** (stage A). For every body `b` — any bytes, any line endings, lines of any
+length, trailing blanks, dots, `=` — recode_qp() completes, and what it sends, un-dotted and
+quoted-printable decoded by the reference decoder, is `b` with CR, LF and CRLF normalised to CRLF,
+byte for byte; the 1280 byte staging buffer and its flush points leave no trace in the decoded
+text (they may only decide whether a blank before a soft line break is written `=20` or ` `). -/
+theorem qp_body_roundtrip (b : List Byte) :
+    ∃ st, recodeQp b {} = .ok st ∧ qpDecode (unDot st.out) = some (normalizeEol b) :=
+  recodeQp_roundtrip b
+
 /-- **Proved part of the round trip**: on the plain path un-dotting what was sent before the
 terminator line gives the normalised message (final CRLF added if missing), byte for byte.
-Missing: the quoted-printable path (`qp_body_roundtrip_full`), header rewriting and folding
+Missing: the composition of the quoted-printable body law with header rewriting and folding
 (`roundtrip_single_full`), multipart — modelled, compared with the implementation and checked by the
 reference decoder on the implementation's output on every run, not yet proved. -/
 theorem roundtrip_partial (cfg : Cfg) (m : List Byte) (h : PlainChosen cfg m) :
